@@ -78,8 +78,13 @@ for root, dirs, files in os.walk(src):
             continue
         s = open(os.path.join(root, f)).read()
         if f.endswith(".rs"):
-            n_sync += s.count("std::sync::") + s.count("std::thread")
-            s = s.replace("std::sync::", "crate::vsync::").replace("std::thread", "crate::vthread")
+            n_sync += s.count("std::sync::") + len(re.findall(r"std::thread\b", s))
+            s = s.replace("std::sync::", "crate::vsync::")
+            # std::thread_local! -> shuttle's (per-shuttle-thread storage); std::thread -> shuttle threads
+            s = s.replace("std::thread_local!", "shuttle::thread_local!")
+            s = re.sub(r"(?<![\w:])thread_local!", "shuttle::thread_local!", s)
+            s = s.replace("shuttle::shuttle::thread_local!", "shuttle::thread_local!")
+            s = re.sub(r"std::thread\b", "crate::vthread", s)
             # `use std::{sync::X, ...}` style imports would escape the substitution: refuse loudly
             if re.search(r"use\s+std::\{[^}]*\b(sync|thread)\b", s):
                 sys.exit(f"port_conc: grouped std import of sync/thread in {f}: extend the port script")
